@@ -17,6 +17,8 @@
 package server
 
 import (
+	"time"
+
 	"github.com/oxia-db/oxia/proto"
 	"github.com/oxia-db/oxia/server/kv"
 )
@@ -33,4 +35,36 @@ func VerifSecondaryIndexList(req *proto.ListRequest, db kv.DB) (kv.KeyIterator, 
 
 func VerifSecondaryIndexRangeScan(req *proto.RangeScanRequest, db kv.DB) (kv.RangeScanIterator, error) {
 	return newSecondaryIndexRangeScanIterator(req, db)
+}
+
+// Access to the pieces of a leader / follower controller that the harness observes.
+
+// VerifLeaderDB returns the database of a leader controller.
+func VerifLeaderDB(c LeaderController) kv.DB { return c.(*leaderController).db }
+
+// VerifFollowerDB returns the database of a follower controller.
+func VerifFollowerDB(c FollowerController) kv.DB { return c.(*followerController).db }
+
+// VerifCreateSession creates a session with a timeout below the public minimum (for timer scripts).
+func VerifCreateSession(c LeaderController, req *proto.CreateSessionRequest, minTimeout time.Duration) (*proto.CreateSessionResponse, error) {
+	lc := c.(*leaderController)
+	lc.RLock()
+	sm := lc.sessionManager.(*sessionManager)
+	lc.RUnlock()
+	return sm.createSession(req, minTimeout)
+}
+
+// VerifLiveSessions lists the sessions the leader currently runs a timer for.
+func VerifLiveSessions(c LeaderController) []int64 {
+	lc := c.(*leaderController)
+	lc.RLock()
+	sm := lc.sessionManager.(*sessionManager)
+	lc.RUnlock()
+	sm.RLock()
+	defer sm.RUnlock()
+	var ids []int64
+	for _, k := range sm.sessions.Keys() {
+		ids = append(ids, int64(k))
+	}
+	return ids
 }
